@@ -27,13 +27,25 @@
     tracks without slurs, each update writes a key-off iff a note/rest/end (or tie) is delivered
     in its ticks and the key-on, last, iff a note (or tie) is delivered;
   * `C07_pitch_value_partial`: the pitch words the model computes and writes, `fmPitch = fmWord`.
+  * `C07_log_by_updates`: the export loop of a successful export is exactly the sequence updates
+    `0 … K`, the writes of update `k` at sample `735·k`, waits summing to `735·K`; when it stops;
+    when a loop marker is written;
+  * `C07_tick_delivery_all_passes`, `C07_list_machine_times`: `play_tick` on EVERY pass of a track
+    (looping list machine; hypothesis `SegTop`), and at which call which item is delivered;
+  * `C07_tempo_table_partial`, `C07_schedule_fm_partial`, `C07_schedule_fm_tempo_partial`: for a song
+    with one channel track, the tick table as a function of the tick stream alone (mid-song tempo)
+    and, for an FM channel without SLUR, the key-off / key-on writes of EVERY update of the log;
+  * `C07_slur_update_partial`, `C07_psg_update_partial`: slurred FM notes and PSG melody channels,
+    per update, on any pass;
+  * `C07_export_extent_noloop_partial`: where the log of a track without loop point ends.
   What is NOT proved here and rests on the schedule oracle (Spec/Schedule run on every real
-  export by the check) and on the byte-exact correspondence: `export_extent`, the loop passes
-  after the first, slurred notes, PSG key-on/attenuation, the register-file replay of
-  `pitch_value`, and the composition of the per-update theorems into one statement over the log
-  — kept as `C07_full_statement`.
-  Known finding (known_findings.txt, key `short-note`): at more than one tick per update the
-  key-on of a note that ends inside the update it starts in is written after its key-off.
+  export by the check) and on the byte-exact correspondence: the loop-count lemma of
+  `export_extent` (looping songs), several channels in one statement, slurs / PSG composed over
+  the log, the register-file replay of `pitch_value`, `max_seconds` — kept as `C07_full_statement`.
+  Known findings (known_findings.txt): `short-note` (at more than one tick per update the key-on
+  of a note that ends inside the update it starts in is written after its key-off), `segno-in-sub`
+  and `segno-in-loop` (a loop point below the top level of the channel's track: the player keeps
+  only an index, the second pass resumes elsewhere — excluded by `SegTop`).
 -/
 import Ctrmml.Proofs.MdDriver
 import Ctrmml.Proofs.TickStream
@@ -902,10 +914,15 @@ def InsAgree (d : Data) (t : Schedule.InsTab) : Prop :=
 /-- Every valid plain-subset song exports, the exported file parses, and the schedule oracle
 (key-on / key-off updates, pitch and attenuation at each key-on, extent and loop marker) finds
 no deviation.  `NoShortNote` excludes the known finding `short-note` (a note ending inside
-the update it starts in); proved pieces: `C07_tick_delivery`, `C07_key_frame_partial`,
-`C07_update_ticks`, `C07_pitch_value_partial`, `C07_log_on_grid`; missing: the composition over
-all updates and channels, slurs, PSG, the loop passes after the first and the loop-count lemma of
-`export_extent`. -/
+the update it starts in).  Proved pieces: `C07_log_by_updates` (the log is the updates),
+`C07_tick_delivery_all_passes` + `C07_list_machine_times` (the tick stream), `C07_tempo_table_partial`
+(the frame table, one channel), `C07_schedule_fm_partial` / `C07_schedule_fm_tempo_partial` (FM keys
+over the whole log, one channel, no slur), `C07_slur_update_partial`, `C07_psg_update_partial` (per
+update), `C07_export_extent_noloop_partial`, `C07_pitch_value_partial`.  Missing: several channels in
+one statement, slurs and PSG composed over the log, the loop-count lemma of `export_extent`, the
+register-file replay of the pitch, and the reading of the oracle's own tables (`Schedule.walk`,
+`place`, `frameTable`) as these theorems; a song must also keep every loop point at the top level
+of its channel tracks (known findings `segno-in-sub`, `segno-in-loop`). -/
 def C07_full_statement : Prop :=
   ∀ (d : Data) (song : Song) (tags : Vgm.Tags) (t : Schedule.InsTab),
     InsAgree d t → NoShortNote song →
